@@ -175,7 +175,51 @@ func (e *Engine) store(s *State, p *PtrV, v Value) {
 }
 
 // iteValue builds ite(c, a, b) structurally; ok=false if the values cannot be merged.
-func (e *Engine) iteValue(c *Term, a, b Value) (Value, bool) {
+// mergeCtx carries the renaming of freshly allocated objects while two states are merged: an object that exists
+// only in state B may be identified with an object that exists only in state A when both are reached at the same
+// position of the values being merged.
+type mergeCtx struct {
+	a, b    *State
+	rename  map[int]int // B id -> A id
+	reverse map[int]int // A id -> B id
+	queue   [][2]int
+	lenient bool // merging contents of unified fresh objects: strings of different length may merge
+}
+
+func (e *Engine) freshIn(s, other *State, id int) bool {
+	if _, ok := s.heap[id]; !ok {
+		return false
+	}
+	if _, ok := other.heap[id]; ok {
+		return false
+	}
+	_, inBase := e.base[id]
+	return !inBase
+}
+
+// unify records that B's object y corresponds to A's object x; false if inconsistent.
+func (e *Engine) unify(ctx *mergeCtx, x, y int) bool {
+	if ctx == nil || x == 0 || y == 0 {
+		return false
+	}
+	if r, ok := ctx.rename[y]; ok {
+		return r == x
+	}
+	if _, ok := ctx.reverse[x]; ok {
+		return false
+	}
+	if !e.freshIn(ctx.a, ctx.b, x) || !e.freshIn(ctx.b, ctx.a, y) {
+		return false
+	}
+	ctx.rename[y] = x
+	ctx.reverse[x] = y
+	ctx.queue = append(ctx.queue, [2]int{x, y})
+	return true
+}
+
+func (e *Engine) iteValue(c *Term, a, b Value) (Value, bool) { return e.iteValueCtx(nil, c, a, b) }
+
+func (e *Engine) iteValueCtx(ctx *mergeCtx, c *Term, a, b Value) (Value, bool) {
 	if c.IsTrue() {
 		return a, true
 	}
@@ -206,7 +250,7 @@ func (e *Engine) iteValue(c *Term, a, b Value) (Value, bool) {
 		if len(y.B) > n {
 			n = len(y.B)
 		}
-		if !e.cfg.SymbolicLen && x.N != y.N {
+		if !e.cfg.SymbolicLen && x.N != y.N && !(ctx != nil && ctx.lenient) {
 			return nil, false
 		}
 		if n > e.cfg.MaxStrMerge {
@@ -244,7 +288,7 @@ func (e *Engine) iteValue(c *Term, a, b Value) (Value, bool) {
 		}
 		f := make([]Value, len(x.F))
 		for i := range x.F {
-			m, ok := e.iteValue(c, x.F[i], y.F[i])
+			m, ok := e.iteValueCtx(ctx, c, x.F[i], y.F[i])
 			if !ok {
 				return nil, false
 			}
@@ -258,7 +302,7 @@ func (e *Engine) iteValue(c *Term, a, b Value) (Value, bool) {
 		}
 		el := make([]Value, len(x.E))
 		for i := range x.E {
-			m, ok := e.iteValue(c, x.E[i], y.E[i])
+			m, ok := e.iteValueCtx(ctx, c, x.E[i], y.E[i])
 			if !ok {
 				return nil, false
 			}
@@ -267,7 +311,10 @@ func (e *Engine) iteValue(c *Term, a, b Value) (Value, bool) {
 		return &ArrayV{E: el}, true
 	case *PtrV:
 		y, ok := b.(*PtrV)
-		if !ok || x.Obj != y.Obj || x.Sym != y.Sym || x.SymN != y.SymN || len(x.Path) != len(y.Path) {
+		if !ok || x.Sym != y.Sym || x.SymN != y.SymN || len(x.Path) != len(y.Path) {
+			return nil, false
+		}
+		if x.Obj != y.Obj && !e.unify(ctx, x.Obj, y.Obj) {
 			return nil, false
 		}
 		for i := range x.Path {
@@ -278,7 +325,10 @@ func (e *Engine) iteValue(c *Term, a, b Value) (Value, bool) {
 		return a, true
 	case *SliceV:
 		y, ok := b.(*SliceV)
-		if !ok || x.Obj != y.Obj || x.Off != y.Off || x.Cap != y.Cap || len(x.Path) != len(y.Path) {
+		if !ok || x.Off != y.Off || x.Cap != y.Cap || len(x.Path) != len(y.Path) {
+			return nil, false
+		}
+		if x.Obj != y.Obj && !e.unify(ctx, x.Obj, y.Obj) {
 			return nil, false
 		}
 		for i := range x.Path {
@@ -289,7 +339,7 @@ func (e *Engine) iteValue(c *Term, a, b Value) (Value, bool) {
 		if x.Obj == 0 {
 			return a, true
 		}
-		if !e.cfg.SymbolicLen && x.N != y.N {
+		if !e.cfg.SymbolicLen && x.N != y.N && !(ctx != nil && ctx.lenient) {
 			return nil, false
 		}
 		return &SliceV{Obj: x.Obj, Path: x.Path, Off: x.Off, N: e.tb.Ite(c, x.N, y.N), Cap: x.Cap}, true
@@ -310,7 +360,7 @@ func (e *Engine) iteValue(c *Term, a, b Value) (Value, bool) {
 		if !types.Identical(x.T, y.T) {
 			return nil, false
 		}
-		m, ok := e.iteValue(c, x.V, y.V)
+		m, ok := e.iteValueCtx(ctx, c, x.V, y.V)
 		if !ok {
 			return nil, false
 		}
@@ -321,7 +371,7 @@ func (e *Engine) iteValue(c *Term, a, b Value) (Value, bool) {
 			return nil, false
 		}
 		for i := range x.Bindings {
-			if _, ok := e.iteValue(c, x.Bindings[i], y.Bindings[i]); !ok {
+			if _, ok := e.iteValueCtx(ctx, c, x.Bindings[i], y.Bindings[i]); !ok {
 				return nil, false
 			}
 			if !sameValue(x.Bindings[i], y.Bindings[i]) {
@@ -336,7 +386,7 @@ func (e *Engine) iteValue(c *Term, a, b Value) (Value, bool) {
 		}
 		t := make([]Value, len(x.E))
 		for i := range x.E {
-			m, ok := e.iteValue(c, x.E[i], y.E[i])
+			m, ok := e.iteValueCtx(ctx, c, x.E[i], y.E[i])
 			if !ok {
 				return nil, false
 			}
@@ -536,6 +586,7 @@ func (e *Engine) mergeStates(a, b *State, extraA, extraB []Value) (*State, []Val
 			diffs = append(diffs, id)
 		}
 	}
+	ctx := &mergeCtx{a: a, b: b, rename: map[int]int{}, reverse: map[int]int{}}
 	merged := make(map[int]Value, len(diffs))
 	for _, id := range diffs {
 		va, oka := a.heap[id]
@@ -546,7 +597,7 @@ func (e *Engine) mergeStates(a, b *State, extraA, extraB []Value) (*State, []Val
 		if !okb {
 			vb = e.base[id]
 		}
-		m, ok := e.iteValue(ga, va, vb)
+		m, ok := e.iteValueCtx(ctx, ga, va, vb)
 		if !ok {
 			return nil, nil, false
 		}
@@ -554,11 +605,21 @@ func (e *Engine) mergeStates(a, b *State, extraA, extraB []Value) (*State, []Val
 	}
 	extra := make([]Value, len(extraA))
 	for i := range extraA {
-		m, ok := e.iteValue(ga, extraA[i], extraB[i])
+		m, ok := e.iteValueCtx(ctx, ga, extraA[i], extraB[i])
 		if !ok {
 			return nil, nil, false
 		}
 		extra[i] = m
+	}
+	// contents of unified fresh objects
+	ctx.lenient = true
+	for qi := 0; qi < len(ctx.queue); qi++ {
+		x, y := ctx.queue[qi][0], ctx.queue[qi][1]
+		m, ok := e.iteValueCtx(ctx, ga, a.heap[x], b.heap[y])
+		if !ok {
+			return nil, nil, false
+		}
+		merged[x] = m
 	}
 	n := a.fork()
 	for id, vb := range b.heap {
